@@ -162,6 +162,27 @@ pub fn run_c03b(ctx: &mut Ctx) {
             case(ctx, &enc(&script), &ops.join(";"));
         }
     }
+    // long pipelines: several connection buffers' worth of small messages in flight at once, so that single reads fill
+    // the buffer completely and its tail holds the beginning of the next message
+    let nl = if ctx.thorough() { 60 } else { 8 };
+    for i in 0..nl {
+        let k = rng.range(180, 700);
+        let mut script = Vec::new();
+        let mut ops: Vec<String> = Vec::new();
+        for j in 0..k {
+            let blen = *rng.pick(&[0usize, 0, 3, 11, 40]);
+            let pad = "p".repeat(rng.below(30) as usize);
+            let head = if blen == 0 { format!("GET /l{j}{pad} HTTP/1.1\r\n\r\n") } else { format!("POST /l{j}{pad} HTTP/1.1\r\ncontent-length: {blen}\r\n\r\n") };
+            script.extend_from_slice(head.as_bytes());
+            script.extend((0..blen).map(|x| b'a' + ((x + j as usize) % 26) as u8));
+            ops.push("rr".to_string());
+            if blen > 0 { ops.push("bv".to_string()); }
+            ops.push("wr:200:e".to_string());
+        }
+        if ctx.mine(n + i) {
+            case(ctx, &enc(&script), &ops.join(";"));
+        }
+    }
 }
 
 /// C20 clause "every 5xx that is sent is marked connection: close": every status code x body kinds.
@@ -198,6 +219,22 @@ pub fn run_c08c(ctx: &mut Ctx) {
     }
 }
 
+/// C08 at connection level, pre-write refusals: a response of every class that is refused with nothing written, then the fallback.
+pub fn run_c08d(ctx: &mut Ctx) {
+    let script = enc(b"GET /x HTTP/1.1\r\n\r\nGET /y HTTP/1.1\r\n\r\n");
+    let mut idx = 0u64;
+    for code in [200u32, 302, 404, 500, 503, 599] {
+        for variant in ["c", "t", "g", "d"] {
+            for tail in ["wr:500:n;rr", "wr:500:e;rr;wr:200:n", "wc;wr:200:n", "rr"] {
+                idx += 1;
+                if ctx.mine(idx) {
+                    case(ctx, &script, &format!("rr;wr:{code}:{variant};{tail}"));
+                }
+            }
+        }
+    }
+}
+
 pub const OPS: [&str; 14] = ["rr", "bv", "bf:0", "bf:4", "bf:5", "bf:100000", "wc", "wr:100:e", "wr:200:n", "wr:404:n", "wr:500:n", "wr:200:d", "wr:200:c", "sw"];
 
 pub fn run(ctx: &mut Ctx) {
@@ -224,7 +261,10 @@ pub fn run(ctx: &mut Ctx) {
         }
     }
     // random depth-5..8 sequences, biased towards protocol-conforming prefixes
-    let extra = ["wr:503:e", "wr:102:e", "wr:200:s", "wr:301:e", "wr:200:t", "wr:599:n", "wr:200:g"];
+    // f<declared>-<actual>: file bodies that end early (the source fails after the head is on the wire) or are missing
+    let extra = ["wr:503:e", "wr:102:e", "wr:200:s", "wr:301:e", "wr:200:t", "wr:599:n", "wr:200:g", "wr:200:f40-20", "wr:200:f40-m", "wr:404:f3-0", "wr:200:f5-5",
+        // a 5xx (or 4xx) response that is refused before any byte is written must leave the connection usable for the fallback
+        "wr:503:c", "wr:500:t", "wr:404:c", "wr:503:g", "wr:500:d"];
     let n = if ctx.thorough() { 40_000 } else { 4_000 };
     let scs = scripts();
     for _ in 0..n {
